@@ -11,8 +11,11 @@ the sizes and the target element and is replayed natively under OMP_NUM_THREADS 
 """
 import time
 
+from fractions import Fraction as Q
+
 from pyvc import terms as tm
 from pyvc import vc
+from pyvc.nf import NF, NFError
 
 TEAMS = (1, 2, 3, 4, 5, 6, 7, 8, 16)
 
@@ -22,30 +25,108 @@ def _is_tid(v):
 
 
 def _event_condition(e, targets, tgt_idx):
-    """(condition term, [(tid var, nthreads term)]) or None when the event cannot be instantiated positionally."""
+    """(condition term, [(tid var, nthreads term)]) or None when no instantiation scheme applies.  Two sufficient schemes, OR-ed when both apply:
+       positional   loop variable i of the event := target variable i (same number of loops as target dimensions, unit steps);
+       solved       one target dimension, one loop whose variable enters the index with coefficient one: v := target index - (index - v)."""
     team = [(q[0], q[2]) for q in e.qvars if _is_tid(q[0])]
     loops = [q for q in e.qvars if not _is_tid(q[0])]
-    if len(loops) != len(targets):
+    if any(tm.lift(q[3]) is not tm.ONE for q in loops):
         return None
-    sub = {}
-    conds = []
-    for (v, lo, hi, step), (t, tlo, thi) in zip(loops, targets):
-        if tm.lift(step) is not tm.ONE:
-            return None
-        sub[v] = t
-    for (v, lo, hi, step) in loops:
-        conds.append(tm.mk_le(tm.substitute(tm.lift(lo), sub), sub[v]))
-        conds.append(tm.mk_lt(sub[v], tm.substitute(tm.lift(hi), sub)))
-    for g in e.guards:
-        conds.append(tm.substitute(tm.lift(g), sub))
-    conds.append(tm.mk_eq(tm.substitute(tm.lift(e.idx), sub), tgt_idx))
-    return tm.mk_and(*conds), team
+    subs = []
+    if len(loops) == len(targets):
+        subs.append({v: t for (v, lo, hi, step), (t, tlo, thi) in zip(loops, targets)})
+    if len(loops) == 1:
+        v = loops[0][0]
+        rest = tm.substitute(tm.lift(e.idx), {v: tm.ZERO})
+        try:
+            nfc = NF()
+            if nfc.equal(tm.lift(e.idx), rest + v):
+                subs.append({v: tm.lift(tgt_idx) - rest})
+        except NFError:
+            pass
+    alts = []
+    for sub in subs:
+        conds = []
+        for (v, lo, hi, step) in loops:
+            conds.append(tm.mk_le(tm.substitute(tm.lift(lo), sub), sub[v]))
+            conds.append(tm.mk_lt(sub[v], tm.substitute(tm.lift(hi), sub)))
+        for g in e.guards:
+            conds.append(tm.substitute(tm.lift(g), sub))
+        conds.append(tm.mk_eq(tm.substitute(tm.lift(e.idx), sub), tgt_idx))
+        alts.append(tm.mk_and(*conds))
+    if not alts:
+        return None
+    return tm.mk_or(*alts), team
+
+
+_INT_FNS = {("fn", "idiv"): lambda a, b: int(a) // int(b) if (int(a) >= 0) == (int(b) > 0) or int(a) % int(b) == 0 else -((-int(a)) // int(b)),
+            ("fn", "imod"): lambda a, b: int(__import__("math").fmod(int(a), int(b))), ("fn", "trunc"): lambda a: int(a)}
+
+
+def confirm_uncovered(events, env, tgt_value, limit=400000):
+    """Exact check on ONE concrete input (every size, the team size and the target element fixed by `env`): enumerate every instance of every store event and
+    see whether any writes the target element.  True = no instance does (a genuine counterexample), False = some instance does (the solver's model only defeated
+    the instantiation schemes), None = not computable (tables / data-dependent terms without a value)."""
+    import re
+    ev_env = dict(_INT_FNS)
+    tables = {}
+    for k, v in env.items():
+        m_ = re.match(r"^(.+)\[(-?\d+(?:, -?\d+)*)\]$", str(k))
+        if m_:
+            tables.setdefault(m_.group(1), {})[tuple(int(x) for x in m_.group(2).split(", "))] = v
+        else:
+            ev_env[str(k)] = v
+    for name, tab in tables.items():
+        def look(*a, tab=tab):
+            if tuple(a) not in tab:
+                raise KeyError(a)
+            return tab[tuple(a)]
+        ev_env[("fn", name)] = look
+    count = [0]
+
+    def computable(t):
+        for u in tm.subterms(tm.lift(t)).values():
+            if (u.op == "fi" and u.args[0] not in tables) or (u.op == "f" and ("fn", u.args[0]) not in _INT_FNS) or u.op == "sum":
+                return False
+        return True
+
+    def rec(e, k, env_):
+        if k == len(e.qvars):
+            count[0] += 1
+            try:
+                if all(tm.evaluate(tm.lift(g), env_) for g in e.guards) and int(tm.evaluate(tm.lift(e.idx), env_)) == tgt_value:
+                    return True
+            except (KeyError, ValueError, ZeroDivisionError):
+                raise LookupError
+            return False
+        v, lo, hi, step = e.qvars[k]
+        try:
+            lo_, hi_, st_ = int(tm.evaluate(tm.lift(lo), env_)), int(tm.evaluate(tm.lift(hi), env_)), int(tm.evaluate(tm.lift(step), env_))
+        except (KeyError, ValueError, ZeroDivisionError):
+            raise LookupError
+        for x in range(lo_, hi_, max(st_, 1)):
+            if count[0] > limit:
+                raise LookupError
+            e2 = dict(env_)
+            e2[v.args[0]] = x
+            if rec(e, k + 1, e2):
+                return True
+        return False
+    try:
+        for e in events:
+            if not all(computable(t) for t in [e.idx] + list(e.guards) + [x for q in e.qvars for x in q[1:]]):
+                return None
+            if rec(e, 0, ev_env):
+                return False
+    except LookupError:
+        return None
+    return True
 
 
 def coverage(events, targets, tgt_idx, hyps, timeout=10.0, teams=TEAMS):
     """events: overwriting store events on the output array; targets: [(var, lo, hi)]; returns (status, backend, detail, witness) with status in
-    discharged | bounded (discharged for every team size of `teams` only) | refuted | undecided."""
-    t0 = time.time()
+    discharged | bounded (discharged for every team size of `teams` only) | refuted | undecided.  `refuted` is returned only when the solver's input is
+    confirmed by exact enumeration of every store instance on that input (confirm_uncovered)."""
     H = list(hyps)
     for t, lo, hi in targets:
         H += [tm.mk_le(tm.lift(lo), t), tm.mk_lt(t, tm.lift(hi))]
@@ -56,9 +137,37 @@ def coverage(events, targets, tgt_idx, hyps, timeout=10.0, teams=TEAMS):
             continue
         (teamed if c[1] else plain).append(c)
     if not plain and not teamed:
-        return "undecided", "engine", "no store event has the loop structure of the target box", None
+        return "undecided", "engine", "no store event has a loop structure the instantiation schemes apply to", None
+
+    def refutation(v, T):
+        w = dict(v.witness or {})
+        env = {}
+        for k, val in w.items():
+            try:
+                env[str(k)] = int(Q(str(val)))
+            except (ValueError, ZeroDivisionError, TypeError):
+                pass
+        if T is not None:
+            for e in events:
+                for q in e.qvars:
+                    if _is_tid(q[0]) and tm.lift(q[2]).op == "v":
+                        env[tm.lift(q[2]).args[0]] = T
+            w["omp_team_size"] = T
+        try:
+            tv = int(tm.evaluate(tm.lift(tgt_idx), dict(_INT_FNS, **{k: v_ for k, v_ in env.items()})))
+        except (KeyError, ValueError, ZeroDivisionError):
+            tv = None
+        conf = confirm_uncovered(events, env, tv) if tv is not None else None
+        w["target_element"] = tv
+        if conf is True:
+            return "refuted", v.backend, ("team size %d: " % T if T is not None else "") + "no store instance writes element %s on this input (every instance enumerated)" % tv, w
+        if conf is False:
+            return "undecided", v.backend, "the instantiation schemes fail on an input where the element is in fact written (incomplete, not a counterexample)", None
+        return "undecided", v.backend, "solver model not confirmable by enumeration (tables or data-dependent terms)", None
     if not teamed:
         v = vc.decide_valid(H, tm.mk_or(*[c for c, _ in plain]), timeout)
+        if v.status == "refuted":
+            return refutation(v, None)
         return v.status, v.backend, v.detail, v.witness
     for T in teams:
         disj = [c for c, _ in plain]
@@ -75,9 +184,7 @@ def coverage(events, targets, tgt_idx, hyps, timeout=10.0, teams=TEAMS):
         HT = [tm.substitute(h, {tm.lift(nth): tm.lift(T) for _, team in teamed for _, nth in team if tm.lift(nth).op == "v"}) for h in H]
         v = vc.decide_valid(HT, tm.mk_or(*disj), timeout)
         if v.status == "refuted":
-            w = dict(v.witness or {})
-            w["omp_team_size"] = T
-            return "refuted", v.backend, "team size %d: %s" % (T, v.detail), w
+            return refutation(v, T)
         if v.status != "discharged":
             return "undecided", v.backend, "team size %d: %s" % (T, v.detail), None
     return "bounded", "smt", "every team size in %s" % (list(teams),), None
@@ -89,3 +196,68 @@ def record(ctx, name, events, targets, tgt_idx, hyps, fq, replay=None, teams=TEA
         return ctx.bounded(name, True, "OpenMP team size in %s; all array sizes" % (list(teams),), detail)
     v = vc.Verdict(st, be, detail, witness=wit)
     return ctx._rec("obligation", name, v, fq, replay)
+
+
+# ------------------------------------------------------------------ code that chunks its work by thread id: bounds and write/write disjointness per team size
+def _team_instances(e, T):
+    """[(substitution for (tid, nthreads), tid value)] of a thread-level event for team size T."""
+    team = [(q[0], q[2]) for q in e.qvars if _is_tid(q[0])]
+    outs = [{}]
+    for tid, nth in team:
+        outs = [dict(list(a.items()) + [(tid, tm.lift(k))] + ([(tm.lift(nth), tm.lift(T))] if tm.lift(nth).op == "v" else [])) for a in outs for k in range(T)]
+    return outs
+
+
+def _ranges(e, sub):
+    cs = []
+    for v, lo, hi, step in e.qvars:
+        if _is_tid(v):
+            continue
+        cs += [tm.mk_le(tm.substitute(tm.lift(lo), sub), v), tm.mk_lt(v, tm.substitute(tm.lift(hi), sub))]
+    return cs + [tm.substitute(tm.lift(g), sub) for g in e.guards if not any(_is_tid(u) and u not in sub for u in tm.free_vars(tm.lift(g)))]
+
+
+def team_bounds(ctx, name, events, extent, hyps, fq, teams=TEAMS):
+    """every store instance of every thread stays inside [0, extent), for each team size (bounded in the team size)"""
+    from pyvc import intarith
+    for T in teams:
+        for e in events:
+            for sub in _team_instances(e, T):
+                idx = tm.substitute(tm.lift(e.idx), sub)
+                HT = [tm.substitute(tm.lift(h), sub) for h in hyps] + _ranges(e, sub)
+                r_, env, be = intarith.check_sat_int(HT + [tm.mk_not(tm.mk_and(tm.mk_le(tm.ZERO, idx), tm.mk_lt(idx, tm.substitute(tm.lift(extent), sub))))], ctx.timeout)
+                if r_ == "sat":
+                    w = dict(env or {})
+                    w["omp_team_size"] = T
+                    return ctx._rec("obligation", name, vc.Verdict("refuted", be, "team size %d: a thread stores outside the array" % T, witness=w), fq)
+                if r_ != "unsat":
+                    return ctx.undecided(name, "team size %d: solver unknown" % T, fq)
+    return ctx.bounded(name, True, "OpenMP team size in %s; all array sizes" % (list(teams),), "")
+
+
+def team_disjoint(ctx, name, events, hyps, fq, teams=TEAMS):
+    """two different threads never store to the same element, for each team size (bounded in the team size)"""
+    from pyvc import intarith
+    from cvc.csym import fresh
+    for T in teams:
+        insts = [(e, sub) for e in events for sub in _team_instances(e, T)]
+        for a in range(len(insts)):
+            for b in range(a + 1, len(insts)):
+                (e1, s1), (e2, s2) = insts[a], insts[b]
+                t1 = [s1[q[0]].args[0] for q in e1.qvars if _is_tid(q[0])]
+                t2 = [s2[q[0]].args[0] for q in e2.qvars if _is_tid(q[0])]
+                if t1 == t2:
+                    continue            # the same thread: sequential
+                ren = {q[0]: fresh(str(q[0].args[0]).split("#")[0] + "'") for q in e2.qvars if not _is_tid(q[0])}
+                r2 = [tm.substitute(c, ren) for c in _ranges(e2, s2)]
+                i1 = tm.substitute(tm.lift(e1.idx), s1)
+                i2 = tm.substitute(tm.substitute(tm.lift(e2.idx), s2), ren)
+                HT = [tm.substitute(tm.lift(h), s1) for h in hyps] + _ranges(e1, s1) + r2
+                r_, env, be = intarith.check_sat_int(HT + [tm.mk_eq(i1, i2)], ctx.timeout)
+                if r_ == "sat":
+                    w = dict(env or {})
+                    w["omp_team_size"] = T
+                    return ctx._rec("obligation", name, vc.Verdict("refuted", be, "team size %d: threads %s and %s store to the same element" % (T, t1, t2), witness=w), fq)
+                if r_ != "unsat":
+                    return ctx.undecided(name, "team size %d: solver unknown" % T, fq)
+    return ctx.bounded(name, True, "OpenMP team size in %s; all array sizes" % (list(teams),), "")
